@@ -103,4 +103,15 @@ CHECKS["C12"] = {
          "NoHang, Restartable, RestartFromDurable, ReleasedAfterEnd (LifecycleTrace.tla) and NoEarlyAck, AckPrefix, "
          "HandledBeforeStored (DataPathTrace.tla). Design level: Lifecycle.tla.",
  "note": LC_NOTE, "technique": "TLC trace validation of real-service traces with the force stop enumerated over all script positions"}
+CHECKS["C13"] = {
+ "text": "Reconfigure.tla (stage / wake / apply at the record boundary / give up) is model-checked exhaustively incl. "
+         "liveness (no lost wake). On the real default engine a reconfigure request - config stored with "
+         "UpdateWhileRunning, then lifecycle.ReconfigureProcessor - is issued at every step index of base scripts "
+         "(processor at pipeline / source / destination level; idle, mid-stream, during a stop, at start-up), with "
+         "configurations that open or fail to open, two requests in a row, concurrent and cancelled requests; fake "
+         "processors stamp their generation; TLC validates every trace: OneConfigPerRecord, SwitchAtBoundary, "
+         "OnlyRequestedConfig, FailedOpenKeepsOld, AppliedIsInForce, AckPrefix, NoEarlyAck, DestOrder, NoDupWrite, NoHang. "
+         "The v2 engine must refuse.",
+ "note": DP_NOTE + " Single-worker processors only (the code refuses parallel nodes).",
+ "technique": "TLA+ model checking (TLC) of the swap mechanism + TLC trace validation with the request enumerated over all script positions"}
 NOT_APPLICABLE = {}
